@@ -24,12 +24,19 @@ FlagAll(S) == IF S = {} THEN TRUE ELSE TLCSet(1, TLCGet(1) \cup S)
 NsMap(x) == IF x = "ns-local" THEN "ns-remote" ELSE x
 AclMap(x) == IF x = "ns-remote-ok" THEN "ns-allowed" ELSE IF x = "ns-remote-bad" THEN "ns-forbidden" ELSE x
 Allowed == {"ns-allowed"}
-SaExpected == << "sa-remote=\"v-sa-local\"", "sa-unmapped=\"v-sa-unmapped\"" >>
+\* (an identity-mapped key - sa-same -> sa-same - must survive like any other)
+SaExpected == << "sa-remote=\"v-sa-local\"", "sa-same=\"v-sa-same\"", "sa-unmapped=\"v-sa-unmapped\"" >>
+\* chained one-to-one mapping a->b, b->c (C13): exactly one step each, no value lost
+NsChain(x) == IF x = "ns-a" THEN "ns-b" ELSE IF x = "ns-b" THEN "ns-c" ELSE x
+SaChainExpected == << "sa-b=\"v-sa-a\"", "sa-c=\"v-sa-b\"", "sa-same=\"v-sa-same\"" >>
+IsChain(e) == "mode" \in DOMAIN e /\ e.mode = "chain"
 IsNs(e) == e.leaf \in {"ns-info", "ns-recognised", "ns-unrecognised"}
 OnOblig(e) ==
   FlagAll((IF e.err # "" THEN {<<l, "error">>} ELSE {})
-          \cup (IF e.err = "" /\ IsNs(e) /\ e.out # <<NsMap(e.in[1])>> THEN {<<l, "untranslated">>} ELSE {})
-          \cup (IF e.err = "" /\ ~IsNs(e) /\ e.service = "admin" /\ e.out # SaExpected THEN {<<l, "sa">>} ELSE {})
+          \cup (IF e.err = "" /\ IsNs(e) /\ ~IsChain(e) /\ e.out # <<NsMap(e.in[1])>> THEN {<<l, "untranslated">>} ELSE {})
+          \cup (IF e.err = "" /\ IsNs(e) /\ IsChain(e) /\ e.out # <<NsChain(e.in[1])>> THEN {<<l, "chain">>} ELSE {})
+          \cup (IF e.err = "" /\ ~IsNs(e) /\ e.service = "admin" /\ ~IsChain(e) /\ e.out # SaExpected THEN {<<l, "sa">>} ELSE {})
+          \cup (IF e.err = "" /\ ~IsNs(e) /\ e.service = "admin" /\ IsChain(e) /\ e.out # SaChainExpected THEN {<<l, "chain">>} ELSE {})
           \cup (IF e.err = "" /\ ~IsNs(e) /\ e.service = "workflow" /\ e.out # e.in THEN {<<l, "sawf">>} ELSE {})
           \cup (IF e.err = "" /\ ~e.rest_equal THEN {<<l, "changedelse">>} ELSE {}))
 OnAcl(e) ==
